@@ -9,6 +9,7 @@ package main
 //	F9  the worker group's error handler is reached only through the classification
 
 import (
+	"strings"
 	"fmt"
 	"go/ast"
 	"go/constant"
@@ -517,4 +518,97 @@ func ruleStackNode(c *Ctx) {
 		R.Fail("D3s", "ers.(*Stack).Push/stores", "-", "no store to Stack.err/next found: the push primitive was restructured")
 	}
 	R.OK("D1s", "ers+erc/no-node-store", "-", "no `*stack = …` store in packages ers and erc")
+}
+
+// ---------------------------------------------------------------- T3
+
+// ruleT3: the consumer side of a pipe is a pure drain. Everything the
+// background reader put into the channel before it failed must still come out,
+// in order, before the failure is reported (the order-preserving transports of
+// C02: Buffer, Split, Map's output, MergeSlices, Chain …). A combinator on the
+// consumer chain that can end, thin or extend the stream on its own breaks that.
+var t3Cutting = map[string]string{
+	"WithErrorCheck": "reports the reader's error before the buffered elements are drained", "Once": "yields one element only", "If": "may never run", "When": "may skip reads",
+	"Limit": "stops after n reads", "TTL": "repeats a cached element", "Retry": "re-reads after an error", "Filter": "drops elements", "WithoutErrors": "hides the end of the stream",
+	"WithErrorFilter": "rewrites the terminating error", "Join": "appends another source", "WithCancel": "adds an independent end",
+}
+
+var t3Exceptions = map[string]string{
+	"fun.Producer.Launch": "documented to surface the background producer's error as soon as it happens; not one of the order-preserving transports",
+}
+
+func ruleT3(c *Ctx, pkgs map[string]bool, floor int) {
+	R := c.R
+	p := c.P
+	R.Rule("T3", "the consumer chain built on a pipe's Producer() contains no combinator that can end, thin or extend the stream independently of the channel (WithErrorCheck, Filter, Limit, Once, When, TTL, Retry, Join, …): what the reader sent before failing is delivered, in order, before the failure", floor)
+	for _, f := range p.Funcs {
+		if !pkgs[shortPkg(f.Pkg.PkgPath)] {
+			continue
+		}
+		info := f.Info()
+		n := 0
+		walkNoLit(f.Body, func(x ast.Node) bool {
+			call, ok := x.(*ast.CallExpr)
+			if !ok {
+				return true
+			}
+			// only the outermost call of a chain
+			if par, ok := p.Parent(call).(*ast.SelectorExpr); ok && par.X == ast.Expr(call) {
+				if _, isCall := p.Parent(par).(*ast.CallExpr); isCall {
+					return true
+				}
+			}
+			// walk down the chain
+			var methods []string
+			e := ast.Expr(call)
+			fromPipe := false
+			for {
+				cc, ok := ast.Unparen(e).(*ast.CallExpr)
+				if !ok {
+					break
+				}
+				name := callName(info, cc)
+				if name == "fun.ChanOp.Producer" || name == "fun.ChanReceive.Producer" {
+					fromPipe = true
+					break
+				}
+				if !strings.HasPrefix(name, "fun.Producer.") {
+					if len(methods) > 0 || !strings.HasPrefix(name, "fun.") {
+						// some other call at the top (e.g. a constructor taking the chain as argument): not a chain root
+					}
+					break
+				}
+				methods = append(methods, strings.TrimPrefix(name, "fun.Producer."))
+				e = recvExpr(cc)
+			}
+			if !fromPipe || len(methods) == 0 {
+				return true
+			}
+			n++
+			at := fmt.Sprintf("%s/drain#%d", f.Name, n)
+			pos := p.Position(call.Pos())
+			if why, ok := t3Exceptions[f.Root().Name]; ok {
+				R.Exception("T3", f.Root().Name+": "+why)
+				R.OK("T3", at, pos, "tabled: "+why)
+				return true
+			}
+			bad := ""
+			for _, m := range methods {
+				if why, cut := t3Cutting[m]; cut {
+					bad = m + " (" + why + ")"
+				}
+			}
+			R.Check(bad == "", "T3", at, pos, "chain: Producer()."+strings.Join(reverseStr(methods), "."),
+				fmt.Sprintf("%s wraps the pipe's consumer side in %s: elements the background reader had already sent are not delivered (or not all, or not only they), so the buffered pipeline yields a different sequence than the unbuffered one", f.Name, bad))
+			return true
+		})
+	}
+}
+
+func reverseStr(in []string) []string {
+	out := make([]string, len(in))
+	for i, s := range in {
+		out[len(in)-1-i] = s
+	}
+	return out
 }
